@@ -88,7 +88,11 @@ PolyLists == {<< <<0, 0>>, <<10, 0>>, <<10, 5>>, <<0, 5>> >>,                 \*
               << <<0, 0>>, <<10, 0>>, <<20, 0>>, <<20, 5>> >>,                 \* collinear Manhattan
               << <<3, 3>>, <<3, 9>>, <<-5, 9>>, <<-5, 3>> >>,
               << <<0, 0>>, <<10, 0>> >>, << <<7, 7>> >>}
-PlEncCases == {Enc("plist", [pts |-> l, closed |-> c]) : l \in PolyLists, c \in BOOLEAN}
+\* an odd number of alternating horizontal / vertical edges and a slanted closing edge, with first
+\* vertices placed so that their coordinates coincide with the last explicit edge's components
+HVSlant == {<< <<x, y>>, <<x + 10, y>>, <<x + 10, y + 10>>, <<x + 5, y + 10>> >> : x \in {-5, 0, 3}, y \in {-5, 0, 7}}
+           \cup {<< <<x, y>>, <<x, y + 10>>, <<x + 10, y + 10>>, <<x + 10, y + 4>> >> : x \in {0, 3}, y \in {-6, 0, 2}}
+PlEncCases == {Enc("plist", [pts |-> l, closed |-> c]) : l \in PolyLists \cup HVSlant, c \in BOOLEAN}
 GdsCases == {[k |-> "gds", v |-> d] : d \in DoubleBytes}
 
 Cases == UnsignedCases \cup SignedCases \cup D2Cases \cup D3Cases \cup G0Cases \cup G1Cases
